@@ -1,2 +1,31 @@
-(* C08 placeholder *)
-From Rdest Require Import Base Consts Wire Manager Handler.
+(* C08 — only peers of the same torrent (and expected identity) are served. *)
+From Rdest Require Import Base Consts Wire Manager Handler HandlerProofs.
+Open Scope N_scope.
+
+(* a handshake naming a different info-hash, or a peer id other than the expected one, ends the connection
+   with nothing sent (the manager then forgets the peer: KillReq -> kill_peer) *)
+Theorem C08_wrong_hash : forall sha1 cf disk ovf s ih pid r, bytes_eqb ih (c_info_hash cf) = false ->
+  exists s', hstep sha1 cf disk ovf s (EFrame (Handshake ih pid)) r = HEnd s' [] false.
+Proof. exact wrong_hash_closes. Qed.
+Theorem C08_wrong_id : forall sha1 cf disk ovf s ih pid expected r, h_peer_id s = Some expected -> bytes_eqb pid expected = false ->
+  exists s', hstep sha1 cf disk ovf s (EFrame (Handshake ih pid)) r = HEnd s' [] false.
+Proof. exact wrong_id_closes. Qed.
+
+(* before a valid handshake every other message ends the connection with nothing sent *)
+Theorem C08_gate : forall sha1 cf disk ovf s m r, h_hs_done s = false -> (forall a b, m <> Handshake a b) ->
+  hstep sha1 cf disk ovf s (EFrame m) r = HEnd s [] false.
+Proof. intros. apply gate_closes; auto. Qed.
+
+(* whatever happens, every handshake the client writes carries its info-hash and its own id, and piece data
+   is written only in answer to a Request on a connection that has completed a valid handshake *)
+Theorem C08_actions : forall sha1 cf disk ovf s ev r,
+  forallb (act_ok sha1 cf s ev r) (acts_of (hstep sha1 cf disk ovf s ev r)) = true.
+Proof. intros. apply actions_ok. reflexivity. Qed.
+
+Check C08_actions : forall sha1 cf disk ovf s ev r,
+  forallb (act_ok sha1 cf s ev r) (acts_of (hstep sha1 cf disk ovf s ev r)) = true.
+
+Print Assumptions C08_wrong_hash.
+Print Assumptions C08_wrong_id.
+Print Assumptions C08_gate.
+Print Assumptions C08_actions.
